@@ -4,6 +4,10 @@ import (
 	"encoding/json"
 	"fmt"
 	"os"
+	"os/exec"
+	"path/filepath"
+	"runtime"
+	"sync"
 	"time"
 )
 
@@ -162,18 +166,18 @@ func minimizeAndWrite(tracePath string, v Violation, out string, budget time.Dur
 		}
 		chunk := (len(refs) + n - 1) / n
 		reduced := false
-		for start := 0; start < len(refs) && time.Now().Before(deadline); start += chunk {
+		var cands []*Trace
+		for start := 0; start < len(refs); start += chunk {
 			drop := map[ref]bool{}
 			for _, r := range refs[start:min(start+chunk, len(refs))] {
 				drop[r] = true
 			}
-			c := without(cur, drop)
-			if test(c) {
-				cur = c
-				n = max(n-1, 2)
-				reduced = true
-				break
-			}
+			cands = append(cands, without(cur, drop))
+		}
+		if i := testParallel(cands, v.Class(), &execs); i >= 0 {
+			cur = cands[i]
+			n = max(n-1, 2)
+			reduced = true
 		}
 		if !reduced {
 			if n >= len(refs) {
@@ -284,4 +288,72 @@ func cmdReplay(args []string) {
 	fmt.Printf("VIOLATION property=%s replay=%s\n", rf.Property, args[0])
 	fmt.Printf("  class=%s culprit=%s height=%d (recorded height %d; hashes match recorded: %v)\n  %s\n", got.Class(), got.Culprit, got.Height, rf.Violation.Height, hashOK, got.Detail)
 	os.Exit(1)
+}
+
+// cmdTryTrace: exit 0 if the trace reproduces the violation class, 1 if not, 2 on trouble.
+// Used by the minimiser to test many candidate traces in parallel, one OS process each.
+func cmdTryTrace(args []string) {
+	if len(args) < 2 {
+		os.Exit(2)
+	}
+	t, err := loadTrace(args[0])
+	if err != nil {
+		os.Exit(2)
+	}
+	s, err := replayTrace(t, args[1])
+	if err != nil || s.HarnessErr != "" {
+		os.Exit(1)
+	}
+	for i := range s.Violations {
+		if s.Violations[i].Class() == args[1] {
+			os.Exit(0)
+		}
+	}
+	os.Exit(1)
+}
+
+// testParallel runs every candidate in its own process and returns the index of the FIRST
+// candidate (lowest index, so that the outcome does not depend on timing) that still shows
+// the violation class, or -1.
+func testParallel(cands []*Trace, class string, execs *int) int {
+	self, err := os.Executable()
+	if err != nil || len(cands) == 0 {
+		return -1
+	}
+	dir, err := os.MkdirTemp("", "elyssim-min-")
+	if err != nil {
+		return -1
+	}
+	defer os.RemoveAll(dir)
+	par := runtime.NumCPU()
+	if v := envInt("VERIF_MINIMIZE_PROCS", 0); v > 0 {
+		par = v
+	}
+	ok := make([]bool, len(cands))
+	sem := make(chan struct{}, par)
+	var wg sync.WaitGroup
+	for i, c := range cands {
+		bz, _ := json.Marshal(c)
+		path := filepath.Join(dir, fmt.Sprintf("c%d.json", i))
+		if os.WriteFile(path, bz, 0o644) != nil {
+			continue
+		}
+		wg.Add(1)
+		*execs++
+		go func(i int, path string) {
+			defer wg.Done()
+			sem <- struct{}{}
+			defer func() { <-sem }()
+			cmd := exec.Command(self, "trytrace", path, class)
+			cmd.Env = append(os.Environ(), "GOMAXPROCS=2")
+			ok[i] = cmd.Run() == nil
+		}(i, path)
+	}
+	wg.Wait()
+	for i, b := range ok {
+		if b {
+			return i
+		}
+	}
+	return -1
 }
